@@ -33,6 +33,11 @@ def evaluate(case, obs):
     acks0 = cfg.get("acks") == 0
     pmax = case["cluster"].get("produce_max", 7)
     accepted = [s for s in obs.sends if s.get("accepted")]
+    for s in obs.sends:
+        if s.get("bad"):
+            out.label("refused_record")
+            if s.get("accepted"):
+                out.fail("coords", "malformed_record_accepted", {"id": s["id"]})
     # ---- resolved_all / flush_waits / stop_waits
     if obs.deadlock:
         out.fail("resolved_all", "deadlock", {"deadlock": obs.deadlock,
